@@ -125,7 +125,7 @@ func jsonValidTag(s string) bool {
 }
 
 type fieldMeta struct {
-	goName, jsonName                         string
+	goName, jsonName                       string
 	exported, skip, omit, quoted, embedded bool
 }
 
@@ -217,7 +217,6 @@ func dumpSwapSchema() (string, error) {
 	fmt.Fprintf(&b, "Definition last_message_writes : list string := %s.\n", CoqStrList(writes))
 	return b.String(), nil
 }
-
 
 // ---------------------------------------------------------------- string interning (keeps case files small)
 // Long strings of one case are bound once by a let; JSON keys / state names are shard-global definitions.
